@@ -570,9 +570,11 @@ def Op.Ok (G : List Entry) (nd : Node) : Op → Prop
   /- the entries handed to the state machine are the committed entries of that index range -/
   | .applyTo j => toApply nd j =
       G.filter (fun e => above (oidx nd.disk.lastApplied) e.id.index && decide (e.id.index ≤ j))
-  | .buildSnapshot => True
-  /- an installed snapshot was built by a coordinator that applied a prefix of the committed log -/
-  | .installSnapshot s => ∃ o, s = Varpulis.RaftSM.buildSnapshot (smOf G o)
+  | .beginSnapshot => True
+  | .finishSnapshot => True
+  /- an installed snapshot was built by a coordinator that applied a prefix of the committed log; no
+     snapshot build of this node is in flight while a snapshot is installed -/
+  | .installSnapshot s => nd.pending = none ∧ ∃ o, s = Varpulis.RaftSM.buildSnapshot (smOf G o)
   /- the log is purged only up to the position of the stored snapshot -/
   | .purge id => ∃ s, nd.disk.snapData = some s ∧ upto (oidx s.dataLast) id.index = true
   /- only entries above the applied position are deleted as conflicting -/
@@ -582,18 +584,35 @@ def OpsOk (G : List Entry) (nd : Node) : List Op → Prop
   | [] => True
   | op :: ops => op.Ok G nd ∧ OpsOk G (step nd op) ops
 
+/-- what a captured, not yet persisted snapshot satisfies: it is the spec at its own position, that
+position is not ahead of the applied position and not behind the stored snapshot -/
+def PendingOk (G : List Entry) (d : Disk) (p : Option Snapshot) : Prop :=
+  ∀ s, p = some s →
+    s.dataState = (smOf G (oidx s.dataLast)).state ∧
+    (∀ x, oidx s.dataLast = some x → upto (oidx d.lastApplied) x = true) ∧
+    (∀ y, snapFrom d = some y → upto (oidx s.dataLast) y = true)
+
 /-- invariant of a running node -/
 structure Inv (G : List Entry) (nd : Node) : Prop where
   disk : DInv G nd.disk
   mem : nd.mem = smOf G (oidx nd.disk.lastApplied)
+  pending : PendingOk G nd.disk nd.pending
+
+/-- the pending clause only looks at the applied position and the stored snapshot's position -/
+theorem PendingOk.congr {G : List Entry} {d d' : Disk} {p : Option Snapshot} (h : PendingOk G d p)
+    (hla : d'.lastApplied = d.lastApplied) (hsf : snapFrom d' = snapFrom d) : PendingOk G d' p := by
+  intro s hs
+  obtain ⟨h1, h2, h3⟩ := h s hs
+  exact ⟨h1, by rw [hla]; exact h2, by rw [hsf]; exact h3⟩
 
 theorem Inv.init (G : List Entry) : Inv G {} := by
-  refine ⟨⟨Sorted.nil, ?_, ?_, ?_, ?_⟩, ?_⟩
+  refine ⟨⟨Sorted.nil, ?_, ?_, ?_, ?_⟩, ?_, ?_⟩
   · simp [oidx, smOf, cutN_none, SM.init]
   · simp [oidx, smOf, cutN_none, SM.init]
   · intro s hs; cases hs
   · intro e _ h; simp [oidx, upto] at h
   · simp [oidx, smOf, cutN_none, SM.init]
+  · intro s hs; cases hs
 
 theorem upto_above_false {o : Option Nat} {n : Nat} (h1 : upto o n = true) (h2 : above o n = true) : False := by
   cases o with
@@ -664,18 +683,20 @@ theorem apply_cut {G : List Entry} (hG : Sorted G) (o : Option Nat) (j : Nat)
 
 theorem step_disk (nd : Node) (op : Op) : (step nd op).disk = applyWrites nd.disk (writesOf nd op) := rfl
 theorem step_mem (nd : Node) (op : Op) : (step nd op).mem = memAfter nd op := rfl
+theorem step_pending (nd : Node) (op : Op) : (step nd op).pending = pendingAfter nd op := rfl
 
 theorem inv_saveVote {G : List Entry} {nd : Node} (h : Inv G nd) (v : Vote) : Inv G (step nd (.saveVote v)) := by
   have hd := h.disk
-  refine ⟨?_, ?_⟩
+  refine ⟨?_, ?_, ?_⟩
   · rw [step_disk, disk_saveVote]
     exact ⟨hd.sorted, hd.applied, hd.membership, hd.snap, hd.log⟩
   · rw [step_disk, disk_saveVote, step_mem]; exact h.mem
+  · rw [step_disk, disk_saveVote]; exact h.pending
 
 theorem inv_append {G : List Entry} {nd : Node} (h : Inv G nd) (es : List Entry)
     (hok : Op.Ok G nd (.append es)) : Inv G (step nd (.append es)) := by
   have hd := h.disk
-  refine ⟨?_, ?_⟩
+  refine ⟨?_, ?_, ?_⟩
   · rw [step_disk, disk_append]
     refine ⟨sorted_appendLog es hd.sorted, hd.applied, hd.membership, hd.snap, ?_⟩
     intro e ha hu
@@ -692,11 +713,12 @@ theorem inv_append {G : List Entry} {nd : Node} (h : Inv G nd) (es : List Entry)
       rw [← heq] at this
       exact upto_above_false hu this
   · rw [step_disk, disk_append, step_mem]; exact h.mem
+  · rw [step_disk, disk_append]; exact h.pending
 
 theorem inv_deleteConflict {G : List Entry} {nd : Node} (h : Inv G nd) (id : LogId)
     (hok : Op.Ok G nd (.deleteConflict id)) : Inv G (step nd (.deleteConflict id)) := by
   have hd := h.disk
-  refine ⟨?_, ?_⟩
+  refine ⟨?_, ?_, ?_⟩
   · rw [step_disk, disk_deleteConflict]
     refine ⟨hd.sorted.filter _, hd.applied, hd.membership, hd.snap, ?_⟩
     intro e ha hu
@@ -709,12 +731,13 @@ theorem inv_deleteConflict {G : List Entry} {nd : Node} (h : Inv G nd) (id : Log
     | none => rw [hla] at hu; simp [upto] at hu
     | some k => rw [hla] at hu hok'; simp [upto, above] at hu hok'; omega
   · rw [step_disk, disk_deleteConflict, step_mem]; exact h.mem
+  · rw [step_disk, disk_deleteConflict]; exact h.pending
 
 theorem inv_purge {G : List Entry} {nd : Node} (h : Inv G nd) (id : LogId)
     (hok : Op.Ok G nd (.purge id)) : Inv G (step nd (.purge id)) := by
   have hd := h.disk
   obtain ⟨s, hs, hle⟩ := hok
-  refine ⟨?_, ?_⟩
+  refine ⟨?_, ?_, ?_⟩
   · rw [step_disk, disk_purge]
     refine ⟨hd.sorted.filter _, hd.applied, hd.membership, hd.snap, ?_⟩
     intro e ha hu
@@ -728,36 +751,71 @@ theorem inv_purge {G : List Entry} {nd : Node} (h : Inv G nd) (id : LogId)
     | none => rw [hk] at hle; simp [upto] at hle
     | some k => rw [hk] at hle ha'; simp [upto, above] at hle ha'; omega
   · rw [step_disk, disk_purge, step_mem]; exact h.mem
+  · rw [step_disk, disk_purge]; exact h.pending
 
-theorem inv_build {G : List Entry} {nd : Node} (h : Inv G nd) : Inv G (step nd .buildSnapshot) := by
+theorem inv_begin {G : List Entry} {nd : Node} (h : Inv G nd) : Inv G (step nd .beginSnapshot) := by
   have hd := h.disk
   have hmem := h.mem
   have hla : nd.mem.lastApplied = nd.disk.lastApplied := by rw [hmem]; exact hd.applied
-  refine ⟨⟨hd.sorted, hd.applied, hd.membership, ?_, ?_⟩, h.mem⟩
-  · intro s hs
-    have : s = buildSnapshot nd.mem := by
-      simp [step, writesOf, applyWrites, applyWrite, applyPrim] at hs; exact hs.symm
-    subst this
-    refine ⟨?_, ?_⟩
-    · show nd.mem.state = (smOf G (oidx nd.mem.lastApplied)).state
-      rw [hla, ← hmem]
-    · intro x hx
-      have hx' : oidx nd.mem.lastApplied = some x := hx
-      rw [hla] at hx'
-      show upto (oidx nd.disk.lastApplied) x = true
-      rw [hx']; simp [upto]
-  · intro e ha hu
-    exfalso
-    have ha' : above (oidx nd.mem.lastApplied) e.id.index = true := ha
-    rw [hla] at ha'
-    exact upto_above_false hu ha'
+  refine ⟨hd, h.mem, ?_⟩
+  intro s hs
+  have : s = buildSnapshot nd.mem := by
+    simp only [step_pending, pendingAfter, Option.some.injEq] at hs; exact hs.symm
+  subst this
+  refine ⟨?_, ?_, ?_⟩
+  · show nd.mem.state = (smOf G (oidx nd.mem.lastApplied)).state
+    rw [hla, ← hmem]
+  · intro x hx
+    have hx' : oidx nd.mem.lastApplied = some x := hx
+    rw [hla] at hx'
+    show upto (oidx nd.disk.lastApplied) x = true
+    rw [hx']; simp [upto]
+  · intro y hy
+    show upto (oidx nd.mem.lastApplied) y = true
+    rw [hla]
+    exact snapFrom_le hd y hy
+
+theorem upto_above_trans {o p : Option Nat} {n : Nat} (hop : ∀ y, o = some y → upto p y = true)
+    (h : above p n = true) : above o n = true := by
+  cases o with
+  | none => rfl
+  | some y =>
+    have := hop y rfl
+    cases p with
+    | none => simp [upto] at this
+    | some k => simp [upto, above] at this h ⊢; omega
+
+theorem inv_finish {G : List Entry} {nd : Node} (h : Inv G nd) : Inv G (step nd .finishSnapshot) := by
+  have hd := h.disk
+  cases hp : nd.pending with
+  | none =>
+    have hdisk : (step nd .finishSnapshot).disk = nd.disk := by
+      simp [step, writesOf, hp, applyWrites]
+    refine ⟨by rw [hdisk]; exact hd, by rw [hdisk, step_mem]; exact h.mem, ?_⟩
+    intro s hs; simp [step_pending, pendingAfter] at hs
+  | some p =>
+    obtain ⟨hp1, hp2, hp3⟩ := h.pending p hp
+    have hdisk : (step nd .finishSnapshot).disk = { nd.disk with snapData := some p, snapMeta := some p } := by
+      simp [step, writesOf, hp, applyWrites, applyWrite, applyPrim]
+    refine ⟨?_, ?_, ?_⟩
+    · rw [hdisk]
+      refine ⟨hd.sorted, hd.applied, hd.membership, ?_, ?_⟩
+      · intro s hs
+        have : s = p := by simp at hs; exact hs.symm
+        subst this
+        exact ⟨hp1, hp2⟩
+      · intro e ha hu
+        have ha' : above (oidx p.dataLast) e.id.index = true := ha
+        exact hd.log e (upto_above_trans hp3 ha') hu
+    · rw [hdisk, step_mem]; exact h.mem
+    · intro s hs; simp [step_pending, pendingAfter] at hs
 
 theorem inv_install {G : List Entry} (hG : Sorted G) {nd : Node} (h : Inv G nd) (s : Snapshot)
     (hok : Op.Ok G nd (.installSnapshot s)) : Inv G (step nd (.installSnapshot s)) := by
   have hd := h.disk
-  obtain ⟨o, rfl⟩ := hok
+  obtain ⟨hnone, o, rfl⟩ := hok
   have hfix := smOf_fix hG o
-  refine ⟨⟨hd.sorted, ?_, ?_, ?_, ?_⟩, ?_⟩
+  refine ⟨⟨hd.sorted, ?_, ?_, ?_, ?_⟩, ?_, ?_⟩
   · show (smOf G (oidx (smOf G o).lastApplied)).lastApplied = (smOf G o).lastApplied
     rw [hfix]
   · show (smOf G (oidx (smOf G o).lastApplied)).membership = (smOf G o).membership
@@ -780,6 +838,9 @@ theorem inv_install {G : List Entry} (hG : Sorted G) {nd : Node} (h : Inv G nd) 
     exact upto_above_false hu' ha'
   · show smOf G o = smOf G (oidx (smOf G o).lastApplied)
     rw [hfix]
+  · intro s hs
+    have : nd.pending = some s := hs
+    rw [hnone] at this; cases this
 
 theorem inv_apply {G : List Entry} (hG : Sorted G) {nd : Node} (h : Inv G nd) (j : Nat)
     (hok : Op.Ok G nd (.applyTo j)) : Inv G (step nd (.applyTo j)) := by
@@ -793,7 +854,7 @@ theorem inv_apply {G : List Entry} (hG : Sorted G) {nd : Node} (h : Inv G nd) (j
   have hm : memAfter nd (.applyTo j) = applyEntriesT (smOf G (oidx nd.disk.lastApplied))
       (G.filter (fun e => above (oidx nd.disk.lastApplied) e.id.index && decide (e.id.index ≤ j))) := by
     simp only [memAfter]; rw [hok', hmem]
-  refine ⟨⟨hd.sorted, ?_, ?_, ?_, ?_⟩, ?_⟩
+  refine ⟨⟨hd.sorted, ?_, ?_, ?_, ?_⟩, ?_, ?_⟩
   · show (smOf G (oidx (memAfter nd (.applyTo j)).lastApplied)).lastApplied = (memAfter nd (.applyTo j)).lastApplied
     rw [hm, ← hcut1]
   · show (smOf G (oidx (memAfter nd (.applyTo j)).lastApplied)).membership = (memAfter nd (.applyTo j)).membership
@@ -818,6 +879,13 @@ theorem inv_apply {G : List Entry} (hG : Sorted G) {nd : Node} (h : Inv G nd) (j
       simp only [List.mem_filter, h3, h4, Bool.true_and, decide_true, and_true]
   · show memAfter nd (.applyTo j) = smOf G (oidx (memAfter nd (.applyTo j)).lastApplied)
     rw [hm]; exact hcut1
+  · intro s hs
+    have hs' : nd.pending = some s := hs
+    obtain ⟨h1, h2, h3⟩ := h.pending s hs'
+    refine ⟨h1, ?_, h3⟩
+    intro x hx
+    show upto (oidx (memAfter nd (.applyTo j)).lastApplied) x = true
+    rw [hm]; exact hcut2 x (h2 x hx)
 
 theorem step_inv {G : List Entry} (hG : Sorted G) {nd : Node} (h : Inv G nd) (op : Op) (hok : op.Ok G nd) :
     Inv G (step nd op) := by
@@ -825,14 +893,26 @@ theorem step_inv {G : List Entry} (hG : Sorted G) {nd : Node} (h : Inv G nd) (op
   | saveVote v => exact inv_saveVote h v
   | append es => exact inv_append h es hok
   | applyTo j => exact inv_apply hG h j hok
-  | buildSnapshot => exact inv_build h
+  | beginSnapshot => exact inv_begin h
+  | finishSnapshot => exact inv_finish h
   | installSnapshot s => exact inv_install hG h s hok
   | purge id => exact inv_purge h id hok
   | deleteConflict id => exact inv_deleteConflict h id hok
 
-/-- every operation is one atomic write, so a crash sees the disk before or after it -/
-theorem writesOf_single (nd : Node) (op : Op) : ∃ w, writesOf nd op = [w] := by
-  cases op <;> exact ⟨_, rfl⟩
+/-- every operation issues at most one atomic write, so a crash sees the disk before or after it -/
+theorem writesOf_le_one (nd : Node) (op : Op) : writesOf nd op = [] ∨ ∃ w, writesOf nd op = [w] := by
+  cases op with
+  | beginSnapshot => exact .inl rfl
+  | finishSnapshot =>
+    cases hp : nd.pending with
+    | none => exact .inl (by simp [writesOf, hp])
+    | some p => exact .inr ⟨[.putSnapData p, .putSnapMeta p], by simp [writesOf, hp]⟩
+  | saveVote v => exact .inr ⟨_, rfl⟩
+  | append es => exact .inr ⟨_, rfl⟩
+  | applyTo j => exact .inr ⟨_, rfl⟩
+  | installSnapshot s => exact .inr ⟨_, rfl⟩
+  | purge id => exact .inr ⟨_, rfl⟩
+  | deleteConflict id => exact .inr ⟨_, rfl⟩
 
 theorem crash_inv {G : List Entry} (hG : Sorted G) {nd : Node} (h : Inv G nd) (ops : List Op) (hok : OpsOk G nd ops) :
     ∀ d ∈ crashDisks nd ops, DInv G d := by
@@ -843,14 +923,17 @@ theorem crash_inv {G : List Entry} (hG : Sorted G) {nd : Node} (h : Inv G nd) (o
     simp only [crashDisks, List.mem_append] at hd
     have hnext := step_inv hG h op hok.1
     rcases hd with hd | hd
-    · obtain ⟨w, hw⟩ := writesOf_single nd op
-      rw [hw] at hd
-      simp only [prefixDisks, List.mem_cons, List.not_mem_nil, or_false] at hd
-      rcases hd with rfl | rfl
-      · exact h.disk
-      · have : applyWrite nd.disk w = (step nd op).disk := by
-          rw [step_disk, hw]; rfl
-        rw [this]; exact hnext.disk
+    · rcases writesOf_le_one nd op with hw | ⟨w, hw⟩
+      · rw [hw] at hd
+        simp only [prefixDisks, List.mem_singleton] at hd
+        subst hd; exact h.disk
+      · rw [hw] at hd
+        simp only [prefixDisks, List.mem_cons, List.not_mem_nil, or_false] at hd
+        rcases hd with rfl | rfl
+        · exact h.disk
+        · have : applyWrite nd.disk w = (step nd op).disk := by
+            rw [step_disk, hw]; rfl
+          rw [this]; exact hnext.disk
     · exact ih hnext hok.2 d hd
 
 theorem run_inv {G : List Entry} (hG : Sorted G) (ops : List Op) :
